@@ -42,6 +42,9 @@ SHAPES = {
     # sibling names that are canonically equivalent (NFC / NFD spelling of one
     # text): distinct files that collide under Unicode normalisation
     "D3q": [("caf\u00e9.bin",), ("cafe\u0301.bin",), ("d", "x")],
+    # payload files named like the temporary names a careful writer would
+    # use for its neighbour
+    "D3part": [("clip.bin",), ("clip.bin.part",), ("clip.bin.tmp",)],
     # payload files named like the output metafile ("o.torrent")
     "D3t": [("o.torrent",), ("d", "o.torrent"), ("e",)],
 }
